@@ -123,7 +123,9 @@ type call struct {
 	// them to what the transaction's own application log shows
 	fired func(r *world.TxResult, readback bool) string
 	quiet func(r *world.TxResult, readback bool) string
-	desc  string
+	// pre captures the state the effect is measured against, right before the block is executed
+	pre  func()
+	desc string
 }
 
 func (v *venv) caller(i int) (neotest.Signer, []byte, bool) {
@@ -149,6 +151,11 @@ func (v *venv) eventsNamed(r *world.TxResult, name string) []world.Event {
 func (v *venv) runBlock(cs []*call) {
 	b := v.b
 	ps := make([]*world.Pending, len(cs))
+	for _, c := range cs {
+		if c.pre != nil {
+			c.pre()
+		}
+	}
 	for i, c := range cs {
 		var s []world.SignerSpec
 		if c.signer != nil {
@@ -253,8 +260,8 @@ func (v *venv) setConfigCall(caller int, id string) *call {
 
 func (v *venv) chequeCall(caller int, id string, payee util.Uint160, amount int64) *call {
 	s, pub, alpha := v.caller(caller)
-	before := v.w.GASOf(payee)
-	return &call{method: "cheque", args: []any{[]byte(id), payee, amount, []byte{1, 2}}, voteID: id, signer: s, pub: pub, alpha: alpha, desc: fmt.Sprintf("cheque(id %q, %d) by caller %d", id, amount, caller),
+	var before *big.Int
+	return &call{pre: func() { before = v.w.GASOf(payee) }, method: "cheque", args: []any{[]byte(id), payee, amount, []byte{1, 2}}, voteID: id, signer: s, pub: pub, alpha: alpha, desc: fmt.Sprintf("cheque(id %q, %d) by caller %d", id, amount, caller),
 		fired: func(r *world.TxResult, readback bool) string {
 			evs := v.eventsNamed(r, "Cheque")
 			d := new(big.Int).Sub(v.w.GASOf(payee), before)
@@ -302,8 +309,8 @@ func (v *venv) alphabetUpdateCall(caller int, id string, newList [][]byte) *call
 	for i := range newList {
 		arg[i] = newList[i]
 	}
-	old := v.alphabet
-	return &call{method: "alphabetUpdate", args: []any{[]byte(id), arg}, voteID: id, signer: s, pub: pub, alpha: alpha, desc: fmt.Sprintf("alphabetUpdate(id %q, %d keys) by caller %d", id, len(newList), caller),
+	var old [][]byte
+	return &call{pre: func() { old = v.alphabet }, method: "alphabetUpdate", args: []any{[]byte(id), arg}, voteID: id, signer: s, pub: pub, alpha: alpha, desc: fmt.Sprintf("alphabetUpdate(id %q, %d keys) by caller %d", id, len(newList), caller),
 		fired: func(r *world.TxResult, readback bool) string {
 			evs := v.eventsNamed(r, "AlphabetUpdate")
 			v.alphabet = newList
@@ -513,7 +520,7 @@ func runC17(b *runner.Batch) {
 		}
 		b.Hit("candidate-removes-itself")
 	}
-	ncalls := 2000 / 14
+	ncalls := 400
 	if b.Thorough() {
 		ncalls = 50000 / (7 * 16)
 	}
